@@ -23,11 +23,39 @@ Definition probe_payloads : list (list Z * bool) :=
 Definition is_unknown (e : event) : bool :=
   match e with EvBad w => Nat.eqb w E_UNKNOWN | _ => false end.
 
-Definition recognised (m c v : Z) : bool :=
-  existsb (fun '(p, j) => negb (is_unknown (decode_all all_models cs_cat m c v p j 7))) probe_payloads.
-
 (* the base model ignores the value byte of its burst (B) and unordered-region (U) categories *)
 Definition value_blind (m c : Z) : bool := (m =? M_OVNI) && ((c =? 66) || (c =? 85)).
+
+Definition is_bad (e : event) : bool := match e with EvBad _ => true | _ => false end.
+
+(* recognised: some payload makes the handler go past its dispatch and payload checks *)
+Definition recognised (m c v : Z) : bool :=
+  existsb (fun '(p, j) => negb (is_bad (decode_all all_models cs_cat m c v p j 7))) probe_payloads.
+
+(* legacy codes: accepted with a warning, not listed *)
+Definition legacy (m c v : Z) : bool :=
+  ((m =? M_OVNI) && (c =? 67) && (v =? 110)) || ((m =? M_NANOS6) && (c =? 84) && (v =? 67)).
+
+(* the codes a handler can let through, read off the dispatch code: hand-written switches of the base, kernel
+   and task handlers, plus the rows of the dumped tables *)
+Definition hand_codes : list (Z * Z * Z) :=
+  map (fun v => (M_OVNI, 72, v)) [120; 101; 112; 114; 99; 119; 67] ++
+  map (fun v => (M_OVNI, 65, v)) [115; 114] ++ [(M_OVNI, 67, 110)] ++
+  map (fun v => (M_OVNI, 70, v)) [91; 93] ++ map (fun v => (M_OVNI, 77, v)) [91; 93; 61] ++
+  map (fun v => (M_KERNEL, 67, v)) [79; 73] ++
+  map (fun v => (M_NOSV, 84, v)) [99; 67; 120; 101; 114; 112] ++ [(M_NOSV, 89, 99)] ++
+  map (fun v => (M_NANOS6, 84, v)) [67; 99; 120; 101; 114; 112] ++ [(M_NANOS6, 89, 99)].
+
+Definition table_codes : list (Z * Z * Z) := map (fun '(m, c, v, _, _, _) => (m, c, v)) Tables_gen.table.
+
+Definition accepted_codes : list (Z * Z * Z) := hand_codes ++ table_codes.
+
+Definition code_eqb (a b : Z * Z * Z) : bool :=
+  let '(m, c, v) := a in let '(m', c', v') := b in (m =? m') && (c =? c') && (v =? v').
+Definition code_in (a : Z * Z * Z) (l : list (Z * Z * Z)) : bool := existsb (code_eqb a) l.
+
+Definition accepted_listed_ok : bool :=
+  forallb (fun '(m, c, v) => listed m c v || legacy m c v) accepted_codes.
 
 Definition printable : list Z := map Z.of_nat (seq 32 95).
 Definition model_ids : list Z := map (fun '(id, _, _, _) => id) Tables_gen.models.
